@@ -90,6 +90,8 @@ HWalkCase(p) ==
   LET n == Len(p.hs) + 2 IN
   [mem |-> HWalkImage(p), al |-> 0,
    calls |-> <<[op |-> "hload"], [op |-> "htags", it |-> 0], [op |-> "next", it |-> 0], [op |-> "clone", it |-> 0, to |-> 1]>>
+             \o <<[op |-> "count", it |-> 0], [op |-> "clone", it |-> 0, to |-> 3], [op |-> "nth", it |-> 3, n |-> 1],
+                  [op |-> "nth", it |-> 3, n |-> 2], [op |-> "next", it |-> 3]>>
              \o Rep([op |-> "next", it |-> 0], n) \o Rep([op |-> "next", it |-> 1], n)
              \o <<[op |-> "hget", kind |-> "info_req"], [op |-> "hfield", kind |-> "info_req", f |-> "requests"],
                   [op |-> "hget", kind |-> "entry"], [op |-> "hget", kind |-> "module_align"],
@@ -151,8 +153,10 @@ FindCase(p) ==
 \* ---- Cks (C10): calc_checksum on boundary and structured values ----------------------------------------------------------------
 CkWords == { <<0, 0, 0, 0>>, <<1, 0, 0, 0>>, <<255, 255, 255, 255>>, <<0, 0, 0, 128>>, <<255, 255, 255, 127>>,
              <<42, 175, 173, 23>>, <<0, 0, 0, 32>>, <<16, 0, 0, 0>>, <<214, 80, 82, 232>> }
-CksParams == { [m |-> m, a |-> a, l |-> l, ck |-> ck] : m \in {HdrMagic, <<0, 0, 0, 0>>, <<255, 255, 255, 255>>}, a \in {0, 4}, l \in CkWords,
-                                                      ck \in {"ok", "plus", "minus", "top"} }
+\* lengths for which magic + arch + length is 0, 1 or -1 modulo 2^32 (the checksum itself is then 0, -1, 1)
+ZeroSum(m, a) == { LimbBytes(LimbAdd(LimbNeg(LimbAdd(Limb(m), Limb(U32Bytes(a)))), d)) : d \in {LimbZero, [lo |-> 1, hi |-> 0], [lo |-> 65535, hi |-> 65535]} }
+CksParams == UNION { { [m |-> m, a |-> a, l |-> l, ck |-> ck] : l \in CkWords \cup ZeroSum(m, a), ck \in {"ok", "plus", "minus", "top"} }
+                     : m \in {HdrMagic, <<0, 0, 0, 0>>, <<255, 255, 255, 255>>}, a \in {0, 4} }
 \* the same triple as a bare 16-byte basic header, with the right checksum and with three wrong ones
 CksCase(p) ==
   [mem |-> p.m \o U32Bytes(p.a) \o p.l
